@@ -33,6 +33,12 @@ def impl(line):
     return impl_tx_op(line)
 
 
+def lean_line(line):
+    """` @l`: the chunk-built transcript is reached through `liftover_to_parent_or_seq_chunk_parent` of a questioned
+    whole-chromosome transcript (implementation side only; the model and the specification see the same operands)"""
+    return line[:-3] if line.endswith(" @l") else line
+
+
 def nontrivial(line, ans):
     if not ans.startswith("ok"):
         return None
@@ -186,6 +192,15 @@ def interval_lines(plen, st, exons, cds, G):
 
 
 def chunk_lines(plen, st, exons, cds, ws, we, wst, rng, twin_ops=True, frames=None):
+    """`_chunk_lines`, and for a share of the lines the ` @l` twin (same operands, the chunk-built transcript reached
+    through liftover of a questioned whole-chromosome transcript)"""
+    for ln in _chunk_lines(plen, st, exons, cds, ws, we, wst, rng, twin_ops, frames):
+        yield ln
+        if wst == "+" and rng.random() < 0.12:
+            yield ln + " @l"
+
+
+def _chunk_lines(plen, st, exons, cds, ws, we, wst, rng, twin_ops=True, frames=None):
     """ops on the transcript built on the chunk [ws, we) (strand wst) of a chromosome of length plen"""
     k = f"{enc_tx(plen, st, exons, cds, frames)} {ws} {we} {wst}"
     L = sum(e - s for s, e in exons)
